@@ -336,11 +336,18 @@ func (s *Service) RemMachine(ctx context.Context, mid string) error {
 
 	// ToDo: Remove timers?
 
+	// Hold the lock across the write: the machine leaves memory only
+	// if (and when) its record has been deleted.
 	s.crew.Lock()
-	delete(s.crew.Machines, mid)
-	s.crew.Unlock()
+	defer s.crew.Unlock()
 
-	return s.store.WriteState(ctx, s.crewName, []*MachineState{&ms})
+	if err := s.store.WriteState(ctx, s.crewName, []*MachineState{&ms}); err != nil {
+		return err
+	}
+
+	delete(s.crew.Machines, mid)
+
+	return nil
 }
 
 func (s *Service) Route(ctx context.Context, msg interface{}) ([]string, bool, error) {
